@@ -225,7 +225,7 @@ func c18Sweep(run *common.Run, maxLen int) {
 			}
 		}
 	}
-	main := []string{"a", "A", "1", ",", " ", "\t", "t", "ÿ"}
+	main := []string{"a", "A", "1", ",", " ", "\t", "t", "ÿ", "="} // '=' : the separator of the process environment itself
 	c18AllStrings(main, maxLen, func(s string) {
 		nStrings++
 		for i := 0; i < c18NOpt; i++ {
